@@ -501,6 +501,12 @@ def check_cmp(g, step, text):
         return "node comparison does not order by value"
     if m.get("cmp") != name or m.get("pcmp") != "Some(%s)" % name:
         return "Ord/PartialOrd disagree with the order of the node values"
+    if m.get("ne") != str(1 - want_eq):
+        return "`!=` of nodes is not inequality of keys"
+    if m.get("gt") != str(int(va > vb)) or m.get("ge") != str(int(va >= vb)):
+        return "`>` / `>=` of nodes do not order by value"
+    if m.get("max") != str(max(va, vb)) or m.get("min") != str(min(va, vb)):
+        return "Ord::max / Ord::min of nodes do not pick by value"
     return None
 
 
@@ -605,6 +611,9 @@ def search_steps(g, algos, whats, level, transposes=(False, True), absent=77):
                         continue
                     if what in ("find", "path"):
                         targets = [g.keys[x] for x in range(g.n)] + [absent, None]
+                    elif what == "cycle":
+                        # search_cycle() looks for the ROOT whatever target() was configured before: the setting is overridden
+                        targets = [None, g.keys[(root + 1) % g.n], absent]
                     else:
                         targets = [None]
                     for tg in targets:
@@ -638,7 +647,7 @@ def gen_cases(cls, rng, tier, algos, whats, level=1, n_small=3, m_small=3, nrand
             root = rng.randrange(g.n)
             tr = rng.random() < 0.5 and cls == "D"
             tg = None
-            if what in ("find", "path"):
+            if what in ("find", "path") or (what == "cycle" and rng.random() < 0.3):
                 tg = g.keys[rng.randrange(g.n)] if rng.random() < 0.9 else 777
             r = rng.random()
             m = None if r < 0.3 else ("each",) if r < 0.6 else ("filt", rng.randint(0, 5), rng.randint(2, 5))
@@ -651,7 +660,7 @@ def gen_cases(cls, rng, tier, algos, whats, level=1, n_small=3, m_small=3, nrand
             g = random_graph(cls, rng, maxn=6, maxe=10)
             algo = rng.choice(algos)
             order = algo in ("pre", "post")
-            ws = [w for w in whats if w in (("nodes", "edges") if order else ("path",))]
+            ws = [w for w in whats if w in (("nodes", "edges") if order else (("path", "find") if algo in ("pmin", "pmax") else ("path",)))]
             if not ws:
                 continue
             what = rng.choice(ws)
